@@ -115,6 +115,13 @@ func (vc *VC) evalIdent(s *State, id *ast.Ident) *Term {
 		return constTerm(o.Val(), o.Type())
 	case *types.Var:
 		if o.Parent() == o.Pkg().Scope() { // package-level var
+			if !vc.prog.MutableGlobals[o] {
+				if _, hasInit := vc.prog.GlobalInit[o]; !hasInit {
+					if _, known := vc.prog.GlobalInfo[o]; known {
+						return zeroValue(o.Type()) // never assigned anywhere in the module, no initialiser
+					}
+				}
+			}
 			return vc.loaded(s, o.Type(), vc.heapArr(s, vc.globalName(o), sortOf(o.Type())), o.Name())
 		}
 		v, ok := s.env[o]
@@ -627,6 +634,11 @@ func (vc *VC) evalTo(s *State, e ast.Expr, target types.Type) *Term {
 		}
 		vc.frame().info.Types[cl] = types.TypeAndValue{Type: target}
 		return vc.evalCompositeLit(s, cl)
+	}
+	if target != nil {
+		if tv, ok := vc.frame().info.Types[e]; ok && tv.IsNil() {
+			return zeroValue(target)
+		}
 	}
 	v := vc.eval(s, e)
 	return vc.convertForAssign(s, v, vc.typeOf(e), target, e)
